@@ -42,7 +42,7 @@ def run(tier, out):
         # intensity or the traffic -- each footprint must still be the energy times the intensity that applies NOW
         n_hist = 25 if tier == "quick" else 500
         edited = numcheck.edited_events(ns, range(base + 70000, base + 70000 + n_hist), 2,
-                                        kinds=("ci", "svci", "net", "pue", "starts"), simulate=True)
+                                        kinds=("ci", "svci", "net", "pue", "starts", "overload", "burst"), simulate=True, with_fixed=True)
         for e in edited:
             e["tid"] += 3 * 10 ** 6
         events += edited
@@ -60,7 +60,8 @@ def run(tier, out):
                                   "with EFNumeric, total / components / views compared in mg; distinct by seed",
                           "sharing_shapes_seen": sorted(shapes), "systems_with_totals": len(totals),
                           "models_observed_after_a_simulation_and_an_edit": len([e for e in edited if e["seq"] > 0]),
-                          "simulations_toggled_before_edits": numcheck.SKIPPED.get("simulations", 0)})
+                          "simulations_toggled_before_edits": numcheck.SKIPPED.get("simulations", 0),
+                          "refused_edits_followed_by_an_observation": numcheck.SKIPPED.get("refused", 0)})
         out.assumptions += ["the hourly total is compared with the sum of components in mg with a slack of 60 mg + one per "
                             "component (the code rounds the total to 1e-4 kg)"]
         if not shapes & {"network-shared", "server-shared-by-jobs", "journey-shared-by-patterns"}:
